@@ -345,8 +345,16 @@ func binDomain(t *yang.YangType) []Value {
 		}
 		out = append(out, Value("bin:"+c))
 	}
+	// a value of 1500 bytes for unrestricted binaries: above the block sizes of chunked encoders (a block of
+	// 1024 bytes is not a multiple of 3) and above 1 KiB buffers
+	if t == nil || len(t.Length) == 0 {
+		out = append(out, BigBinary)
+	}
 	return out
 }
+
+// BigBinary is the 1500-byte member of the domain of unrestricted binary leaves.
+var BigBinary = Value("bin:" + strings.Repeat("a7", 1500))
 
 func (p *Pkg) enumDomain(t reflect.Type) []Value {
 	var nums []int64
@@ -639,6 +647,9 @@ func (p *Pkg) deriveIn(st reflect.Type, se *yang.Entry, steps []Step, prefix Pat
 			if len(ed) == 0 {
 				continue
 			}
+			if len(ed) > 1 && ed[len(ed)-1] == BigBinary {
+				ed = ed[:len(ed)-1] // leaf-lists keep short elements
+			}
 			e1, e2 := ed[0], ed[len(ed)-1]
 			vals := []Value{LL(e1, e2)}
 			if !nested {
@@ -678,7 +689,7 @@ func (p *Pkg) deriveIn(st reflect.Type, se *yang.Entry, steps []Step, prefix Pat
 				m, _ := f.Type.MethodByName("Values")
 				et = m.Type.Out(0).Elem()
 			}
-			if depth >= 2 {
+			if depth >= 3 {
 				continue
 			}
 			keyNames := p.ListKeyNames(et)
@@ -725,6 +736,9 @@ func (p *Pkg) deriveIn(st reflect.Type, se *yang.Entry, steps []Step, prefix Pat
 				if allStr {
 					ntuples = 3 // the third tuple of an all-string multi-key list has an empty key, see below
 				}
+			}
+			if depth >= 2 {
+				ntuples = 1 // third list level: one entry below each second-level entry
 			}
 			idxs := []int{0, -1, 1}
 			seen := map[string]bool{}
